@@ -111,14 +111,80 @@ def param_cache(F, R, rule='B.C06.param-cache', fn_filter=None, floor=30):
     R.floor(rule, n, floor)
 
 
-def ungated(F, R, rule='B.C06.ungated'):
+def accumulators(F, R, rule='B.C06.accumulate', floor=6):
+    """'To within one update of timing', for tweens of any length and updates of any size: elapsed time is accumulated in
+    double precision.  Every place that keeps a running sum of the time step (`x += f(dt)`: a tween's time, a tweener's, the
+    clock's fraction of a tick, the LFO's phase, the two playheads) is an f64.  In single precision each addition is rounded
+    to the spacing of the running total - after a few minutes of 2.7 ms updates the sum runs fast or slow by tens of updates,
+    by an amount that depends on the update period."""
+    import re
+    n = 0
+    for b in F.bodies:
+        if b.krate != 'kira':
+            continue
+        for bb, si, s in b.stmts():
+            if s['k'] != 'assign' or s['rv']['k'] != 'bin' or s['rv']['op'] not in ('Add', 'AddWithOverflow') or not s['lhs']['p']:
+                continue
+            pl = pretty_place(b, s['lhs'])
+            a = describe(b, s['rv']['a'], depth=2, at=bb)
+            c = describe(b, s['rv']['b'], depth=6, at=bb)
+            if a != pl and c != pl:
+                continue
+            other = c if a == pl else a
+            if not re.search(r'(?<![A-Za-z_.])dt(?![A-Za-z_])', other):
+                continue
+            n += 1
+            ty = s['lhs'].get('ty')
+            R.check(ty == 'f64', rule, '%s|%s' % (b.path.split('::{closure')[0].lstrip('<').split(' as ')[0], pl.split('.')[-1]),
+                    '%s accumulates elapsed time in %s, a %s: long tweens / delays / runs drift by an amount that depends on the update period'
+                    % (b.path, pl, ty), detail={'place': pl, 'type': ty, 'step': other[:80]}, where=b.where(bb), nontrivial=False)
+    R.floor(rule, n, floor)
+
+
+def in_chunk_time(F, R, rule='B.C06.in-chunk'):
+    """'Independently of how time is partitioned into updates': inside a chunk a parameter is read at the position of the
+    frame within THIS chunk - every per-frame read (`interpolated_value`, the state manager's fade, the listener's
+    interpolated pose, `spatialize`) is given `index / len` or `(index + 1) / len`, the index coming from the enumeration of
+    the slice being processed and `len` being the length of a slice - not a stored step or the nominal buffer size, which is
+    a different number for the short slice at the end of a device callback."""
+    from ..paths import parse_term
+    targets = ('parameter::Parameter::<T>::interpolated_value', 'playback_state_manager::PlaybackStateManager::interpolated_fade_volume',
+               'info::ListenerInfo::interpolated_position', 'info::ListenerInfo::interpolated_orientation', 'track::sub::SpatialData::spatialize')
+    n = 0
+    for b in F.bodies:
+        if b.krate != 'kira':
+            continue
+        for bb, t in b.calls():
+            cp = callee_path(t) or ''
+            if cp not in targets:
+                continue
+            a = t['args'][-1] if cp.endswith('::spatialize') else t['args'][1]
+            d = describe(b, a, depth=10, at=bb)
+            params = [nm for l, nm in b.names.items() if 1 <= l <= b.arg_count]
+            if d in params or (d.startswith('(*') and d.strip('(*)') in params):
+                continue          # handed through: judged at the callers of this function
+            n += 1
+            name, args = parse_term(d)
+            ok = name == 'Div' and args is not None and len(args) == 2 and 'Enumerate' in args[0] and args[0].count('::len(') == 0 \
+                and args[1].startswith('core::slice::<impl [T]>::len(') and 'self' not in args[1].split('::len(', 1)[1][:0]
+            if ok:
+                inner = args[0]
+                ok = inner.startswith(('Add(1, ', 'Add(<', '<std::iter::Enumerate')) or inner.startswith('Add(')
+            R.check(ok, rule, '%s|%s#%s' % (b.path.split('::{closure')[0].lstrip('<').split(' as ')[0], cp.split('::')[-1], b.blocks[bb]['term'].get('line', '')) if False else
+                    '%s|%s' % (b.path.split('::{closure')[0].lstrip('<').split(' as ')[0], cp.split('::')[-1]),
+                    '%s reads %s at %s: not the position of the frame inside the slice being processed (index / length of that slice)'
+                    % (b.path, cp.split('::')[-1], d[:120]), detail={'amount': d[:160]}, where=b.where(bb), nontrivial=False)
+    R.floor(rule, n, 24)
+
+
+def ungated(F, R, rule='B.C06.ungated', fn_filter=None):
     """Time-keeping advances whether or not the owner is paused: in every per-chunk function that both updates a
     Parameter, a StartTime or the PlaybackStateManager of `self` and has a freeze gate (clock not ticking, state not
     advancing), those updates come before the gate (tweens issued while paused start when due; a scheduled start is
     latched or cancelled even while the sound is paused)."""
     n = 0
     for b in F.bodies:
-        if b.krate != 'kira':
+        if b.krate != 'kira' or (fn_filter is not None and not fn_filter(b.path)):
             continue
         ups = [(bb, t) for bb, t in b.calls()
                if (callee_path(t) or '') in ('parameter::Parameter::<T>::update', 'start_time::StartTime::update',
@@ -138,6 +204,15 @@ def ungated(F, R, rule='B.C06.ungated'):
         # every piece of time-keeping of one pass advances by the same duration (the chunk's): a per-frame `dt` handed to one
         # of them makes that one run `chunk length` times too slowly
         durs = sorted(set(describe(b, t['args'][1], depth=8, at=bb) for bb, t in ups if ' as Some' not in describe(b, t['args'][0], depth=3, at=bb)))
+        # ... and that duration is the time THIS slice covers: the per-frame step times the length of the slice being processed,
+        # or the function's own `dt` handed through - not a stored "buffer duration" (the last slice of a device callback is
+        # shorter than the nominal buffer and would be charged a full one)
+        params = [nm for l, nm in b.names.items() if 1 <= l <= b.arg_count]
+        for d_ in durs:
+            chunk = (d_.startswith('Mul(') and '::len(' in d_ and any(p_ in d_ for p_ in params)) or d_ in params
+            R.check(chunk, rule, '%s|chunk-duration' % b.path,
+                    '%s advances its time-keeping by %s: not `dt * len(slice)` of the slice being processed (nor its own dt argument)' % (b.path, d_[:80]),
+                    detail={'fn': b.path, 'duration': d_[:100]}, where=b.file, nontrivial=False)
         if len(ups) > 1:
             R.check(len(durs) == 1, rule, '%s|same-duration' % b.path,
                     '%s advances its parameters / state machine / start time by different durations in one pass: %s' % (b.path, [d[:50] for d in durs]),
@@ -162,7 +237,7 @@ def ungated(F, R, rule='B.C06.ungated'):
             R.check(must_pass(b, [0], b.return_blocks(), [bb] + marks), rule, '%s|%s|every-path' % (b.path, fld.split('.')[-1]),
                     '%s can return without having updated %s (and without stopping): a fade or a scheduled start does not '
                     'advance on that path' % (b.path, fld), detail={'fn': b.path, 'parameter': fld}, where=b.where(bb))
-    R.floor(rule, n, 8)
+    R.floor(rule, n, 8 if fn_filter is None else 2)
 
 
 def run(ctx, R, tier):
@@ -188,6 +263,8 @@ def run(ctx, R, tier):
     fade_continuity(F, R, rule='B.C06.fade-continuity')
     defaults_match(F, R)
     param_cache(F, R)
+    in_chunk_time(F, R)
+    accumulators(F, R)
     duration_interp(F, R)
     # 'with the built-in easings the value never leaves the interval': their powers stay inside their domain (A.singular)
     from ..enginea import run_singular_only
